@@ -4,7 +4,7 @@ import math, os, random, subprocess, sys, tempfile, time, multiprocessing, trace
 from fractions import Fraction
 import z3
 from .ir import (T, B, lift, var, cmp, eq, band, bor, bnot, implies, TRUE, FALSE, show, showb, brief, walk, collect,
-                 ev, evb, EvalError, free_vars)
+                 ev, evb, evb3, EvalError, free_vars)
 
 Z3_OLD = "/usr/bin/z3"
 CVC5 = "/usr/bin/cvc5"
@@ -198,43 +198,23 @@ def model_env(zz, model):
     return env, appvals
 
 
-def validate(ob, zz, env, appvals, tol_h=1e-7, tol_g=1e-6):
-    """re-evaluate the obligation with true exp/log at the model's program variables.
-    returns (ok, detail): ok = hyps hold and goal fails numerically"""
+def validate(ob, zz, env, appvals):
+    """re-evaluate the obligation with true exp/log at the model's program variables (running error bounds,
+    three-valued).  returns (ok, detail): ok = no hypothesis is definitely false and the goal is definitely false"""
     e = dict(env)
     for n in collect(list(ob.hyps) + [ob.goal], lambda n: isinstance(n, T) and n.op == 'app'):
         if n.id in appvals and appvals[n.id] is not None: e[('#', n.id)] = appvals[n.id]
     memo = {}
     try:
         for h in ob.hyps:
-            if not evb(h, e, memo, tol_h): return False, "hypothesis fails numerically: " + brief(h, 120)
+            if evb3(h, e, memo) is False: return False, "hypothesis fails numerically: " + brief(h, 120)
         g = ob.goal
         if g is FALSE or g is TRUE: return True, "hypotheses hold numerically"
-        if _goal_holds(g, e, memo, tol_g): return False, "goal holds numerically at the model (abstraction artefact)"
-        return True, "goal fails numerically"
+        r = evb3(g, e, memo)
+        if r is False: return True, "goal fails numerically"
+        return False, "goal not definitely false at the model (abstraction artefact or rounding)"
     except EvalError as x:
         return False, "evaluation error: %s" % x
-
-
-def _goal_holds(g, e, memo, tol):
-    """lenient truth: equalities within tol, inequalities with slack"""
-    o = g.op
-    if o == 'and': return all(_goal_holds(x, e, memo, tol) for x in g.a)
-    if o == 'or': return any(_goal_holds(x, e, memo, tol) for x in g.a)
-    if o == 'not': return not _strict(g.a[0], e, memo, tol)
-    return evb(g, e, memo, tol)
-
-
-def _strict(g, e, memo, tol):
-    o = g.op
-    if o == 'and': return all(_strict(x, e, memo, tol) for x in g.a)
-    if o == 'or': return any(_strict(x, e, memo, tol) for x in g.a)
-    if o == 'not': return not _goal_holds(g.a[0], e, memo, tol)
-    if o == 'cmp':
-        k = g.a[0]; x, y = ev(g.a[1], e, memo), ev(g.a[2], e, memo)
-        s = tol * max(1.0, abs(x), abs(y))
-        return {'==': abs(x - y) <= 0, '!=': abs(x - y) > s, '<': x < y - s, '<=': x <= y - s, '>': x > y + s, '>=': x >= y + s}[k]
-    return evb(g, e, memo, 0.0)
 
 
 def run_cli(cmd, text, timeout):
@@ -334,13 +314,13 @@ def numeric_probe(ob, seed, tries=4000, want=200):
             env[n] = rng.randint(int(lo), int(hi)) if t.a[1] == 'I' else rng.uniform(lo, hi)
         memo = {}
         try:
-            if not all(evb(h, env, memo, 0.0) for h in ob.hyps): continue
+            if not all(evb3(h, env, memo) is True for h in ob.hyps): continue
             hits += 1
             if ob.expect == 'sat':
-                if ob.goal is FALSE or ob.goal is TRUE or not _goal_holds(ob.goal, env, memo, 1e-6):
+                if ob.goal is FALSE or ob.goal is TRUE or evb3(ob.goal, env, memo) is False:
                     return dict(status='discharged', detail='witness found by sampling', model=env, backend='numeric-sampling')
                 continue
-            if not _goal_holds(ob.goal, env, memo, 1e-6):
+            if evb3(ob.goal, env, memo) is False:
                 return dict(status='refuted', detail='numeric counterexample found by sampling', model=env)
         except EvalError:
             continue
